@@ -891,7 +891,9 @@ func (w *walker) selector(e *ast.SelectorExpr, ls *lockset, mode amode, atomic b
 				}
 			}
 			ft := f.Type()
-			if w.isAtomicNamed(ft) {
+			if _, isPtr := types.Unalias(ft).(*types.Pointer); w.isAtomicNamed(ft) && !(isPtr && isSyncType(ft)) {
+				// a value field of a sync / atomic type is only touched through its methods; a POINTER to
+				// a sync object (r.joinGen *sync.WaitGroup) is an ordinary word: `x.f = p` is a plain write
 				fa = true
 			}
 			switch fm {
@@ -940,6 +942,33 @@ func (w *walker) selector(e *ast.SelectorExpr, ls *lockset, mode amode, atomic b
 		xm = mRead
 	}
 	w.expr(e.X, ls, xm)
+}
+
+// valueFieldOf: e selects a non-pointer field of a tracked struct type (possibly through embedding);
+// returns the owner's display name and the field name
+func (w *walker) valueFieldOf(e *ast.SelectorExpr) (string, string, bool) {
+	sel := w.p.info.Selections[e]
+	if sel == nil || sel.Kind() != types.FieldVal {
+		return "", "", false
+	}
+	t := sel.Recv()
+	idx := sel.Index()
+	for i, k := range idx {
+		st, ok := derefStruct(t)
+		if !ok {
+			return "", "", false
+		}
+		f := st.Field(k)
+		if i == len(idx)-1 {
+			owner, tracked := w.trackedStruct(t)
+			if _, isPtr := types.Unalias(f.Type()).(*types.Pointer); !tracked || isPtr {
+				return "", "", false
+			}
+			return owner, f.Name(), true
+		}
+		t = f.Type()
+	}
+	return "", "", false
 }
 
 func derefStruct(t types.Type) (*types.Struct, bool) {
@@ -1259,6 +1288,32 @@ func (w *walker) call(c *ast.CallExpr, ls *lockset, kind string) {
 				}
 			}
 			return
+		}
+	}
+	// sync.WaitGroup reuse contract ("calls with a positive delta that occur when the counter is zero
+	// must happen before a Wait"): Add/Go of a WaitGroup VALUE field of a tracked type is a write, Wait a
+	// read, of the virtual field T.f/reuse; Done is not recorded (it never starts from zero). Add ∥ Wait
+	// without a common lock (or a recorded ordering token) is then rejected like any other pair.
+	if callee != nil && recv != nil && callee.Pkg() != nil && callee.Pkg().Path() == "sync" {
+		if n := namedOf(w.p.info.TypeOf(recv)); n != nil && n.Obj().Name() == "WaitGroup" {
+			re := recv
+			for {
+				pe, ok := re.(*ast.ParenExpr)
+				if !ok {
+					break
+				}
+				re = pe.X
+			}
+			if se, ok := re.(*ast.SelectorExpr); ok {
+				if owner, fname, ok := w.valueFieldOf(se); ok {
+					switch callee.Name() {
+					case "Add", "Go":
+						w.record(owner+"."+fname+"/reuse", se, se.X, true, false, ls)
+					case "Wait":
+						w.record(owner+"."+fname+"/reuse", se, se.X, false, false, ls)
+					}
+				}
+			}
 		}
 	}
 	// sync/atomic functions on &x.f
